@@ -10,7 +10,13 @@ os.makedirs(dst, exist_ok=True)
 for f in ("patch.diff", "demo.rs", "README.md"):
     if os.path.exists(os.path.join(src, f)):
         shutil.copy(os.path.join(src, f), os.path.join(dst, f if f != "README.md" else "AUTHOR_NOTES.md"))
-conf = subprocess.run(["/verif/tools/confirm_mutant.sh", wt, src] + sys.argv[4:], capture_output=True, text=True).stdout.strip().splitlines()
+old = {}
+if os.path.exists(os.path.join(dst, "meta.json")):
+    old = json.load(open(os.path.join(dst, "meta.json")))
+if os.path.isdir(wt):
+    conf = subprocess.run(["/verif/tools/confirm_mutant.sh", wt, src] + sys.argv[4:], capture_output=True, text=True).stdout.strip().splitlines()
+else:
+    conf = None   # re-recording detection only: keep the stored confirmation
 out = subprocess.run(["/verif/tools/try_mutant.sh", os.path.join(dst, "patch.diff")], capture_output=True, text=True, cwd="/verif").stdout
 fired = {}
 for line in out.splitlines():
@@ -22,15 +28,15 @@ for line in out.splitlines():
             fired[m.group(1)].append(s)
 rcs = dict(re.findall(r"(C\d+) rc=(\d)", out))
 notes = open(os.path.join(dst, "AUTHOR_NOTES.md")).read() if os.path.exists(os.path.join(dst, "AUTHOR_NOTES.md")) else ""
-crate = conf[-2].split()[0].split("=")[1] if len(conf) >= 2 else "?"
+crate = (conf[-2].split()[0].split("=")[1] if len(conf) >= 2 else "?") if conf is not None else old.get("crate", "?")
 meta = {
     "id": "%s-%s" % (prop, letter),
     "breaks_property": prop,
     "crate": crate,
     "origin": "independent sub-agent given only the property text and a scratch worktree",
     "needs_to_manifest": "see AUTHOR_NOTES.md (written by the author of the change)",
-    "confirmed_by": "tools/confirm_mutant.sh in the scratch worktree: " + " | ".join(conf[-2:]),
-    "demo_command": "copy demo.rs to %s/tests/seeded_demo.rs; cargo test -p %s --offline --test seeded_demo %s" % (crate, crate, extra),
+    "confirmed_by": ("tools/confirm_mutant.sh in the scratch worktree: " + " | ".join(conf[-2:])) if conf is not None else old.get("confirmed_by"),
+    "demo_command": ("copy demo.rs to %s/tests/seeded_demo.rs; cargo test -p %s --offline --test seeded_demo %s" % (crate, crate, extra)) if conf is not None else old.get("demo_command"),
     "checks_run": "tools/try_mutant.sh (git -C /repo apply; every registered quick check; git -C /repo checkout -- .)",
     "detected_by_target_property_check": rcs.get(prop) == "1",
     "checks_exit_1": sorted(k for k, v in rcs.items() if v == "1"),
